@@ -9,7 +9,7 @@ import sympy as sp
 from . import units as U
 from .model import Model, dotted_name, src, body_wo_doc
 from .report import AnalysisError
-from .sym import (Opaque, Ev, Obj, Tup, LibV, UnitReg, FuncV, AVG, as_sym, is_sym, LIB, DictV, SliceV, Indexed, ClsV,
+from .sym import (EnumV, Opaque, Ev, Obj, Tup, LibV, UnitReg, FuncV, AVG, as_sym, is_sym, LIB, DictV, SliceV, Indexed, ClsV,
                   _const_int)
 
 P = dict(positive=True)
@@ -77,13 +77,14 @@ class KeyObj(Obj):
         si, sj = V2S[a], V2S[b]
         I = lambda *x: Tup([sp.Integer(k) for k in x])
         mk = lambda v, st: Obj(STRREP, {"voigt": sp.Integer(v), "v": sp.Integer(v), "standard": I(*st), "s": I(*st),
-                                        "i": sp.Integer(st[0]), "j": sp.Integer(st[1])})
+                                        "i": sp.Integer(st[0]), "j": sp.Integer(st[1]), "__fields__": ["i", "j"]})
         shear = a > 3 or b > 3
         mult = (1 if a == b else 2) * (1 if si[0] == si[1] else 2) * (1 if sj[0] == sj[1] else 2)
         super().__init__(MODREP, {
             "voigt": I(a, b), "v": I(a, b), "standard": I(*si, *sj), "s": I(*si, *sj), "i": mk(a, si), "j": mk(b, sj),
             "is_shear": shear, "is_longitudinal": (a == b and not shear), "is_off_diagonal": (a != b and not shear),
-            "multiplicity": sp.Integer(mult)}, label=name)
+            "multiplicity": sp.Integer(mult), "calc_type": EnumV("cij.util.voigt:ElasticModulusCalculationType",
+                                                                 "SHEAR" if shear else ("LONGITUDINAL" if a == b else "OFF_DIAGONAL"))}, label=name)
         self.const_key = name
         self.name = name
 
